@@ -392,7 +392,62 @@ def rule_e(ctx, out):
         raise AnalysisError(f"only {n} re-labelling sites found")
 
 
+CTX_CFG = {"entry": f"{GO}.apply_all_comparison", "rules_fn": f"{GO}.apply_cond_transformation", "module": GO,
+           "simple": f"{GO}.apply_transform", "dispatch": f"{GO}.apply_transform_rules"}
+
+# context rules that no pattern of the family exercises, with the reason (read in the source)
+CTX_NEVER_FIRED = {
+    "OR(X,NOT(X))": "dead code: its selector `or_op` filters for NOT consumers (same as not_op), so the branch is shadowed by NOT(NOT(X)); a lost "
+                    "simplification, not a wrong one",
+}
+
+
+def rule_f(ctx, out):
+    """Context ("type 2") rules: apply_all_comparison is interpreted on every pattern of a finite family; where a rule fires, the
+    words denoted by the target stack before and after are compared under the reference semantics over a grid of edge-case words."""
+    from ..core import ctxrules as cr
+    eng = cr.Engine(ctx, CTX_CFG["entry"], CTX_CFG["rules_fn"], CTX_CFG["module"])
+    fam = cr.Family(ctx, eng, CTX_CFG["simple"], CTX_CFG["dispatch"])
+    names = sorted(set(eng.rule_names()))
+    if len(names) < 25:
+        raise AnalysisError(f"apply_cond_transformation: only {len(names)} rule names found")
+    stats, fails = cr.examine(eng, fam, fam.named())
+    scope = "named patterns and their one-step perturbations"
+    if ctx.tier == "thorough":
+        st2, f2 = cr.examine_generic_parallel(ctx, CTX_CFG)
+        for k in ("patterns", "normal", "fired"):
+            stats[k] += st2[k]
+        for k, v in st2["by_rule"].items():
+            stats["by_rule"][k] = stats["by_rule"].get(k, 0) + v
+        fails += f2
+        scope += " + all two-level terms over the function's vocabulary"
+    out.info["context_rules"] = {"family": scope, "patterns": stats["patterns"], "in_type1_normal_form": stats["normal"], "evaluations_with_a_rule_fired": stats["fired"],
+                                 "fired_per_rule": dict(sorted(stats["by_rule"].items())), "grid_words_per_variable": len(cr.GRID)}
+    if stats["fired"] < 150:
+        raise AnalysisError(f"context rules fired on only {stats['fired']} evaluations")
+    fails.sort(key=lambda t: (t[0], t[1], len(t[2]), t[2]))
+    for rule, kind, pat, variant, mm, fired in fails:
+        what = {"value": f"denotes a different word after the rewrite (target {mm.get('target')}: {mm.get('before')} before, {mm.get('after')} after, at {mm.get('assignment')})",
+                "ill-formed-result": f"leaves an ill-formed specification ({mm.get('what')})",
+                "raises": f"raises {mm.get('what')}", "diverges": "does not reach a fixpoint",
+                "target-stack-length": "changes the length of the target stack"}.get(kind, kind)
+        out.bad(f"context-rule:{rule}:{kind}", f"rule {rule!r} fired on the pattern {pat} and {what}", where(eng.rules_fn),
+                {"pattern": pat, "variant": variant, "rules_fired": fired, "mismatch": mm})
+    bad_rules = {t[0] for t in fails}
+    for n in names:
+        k = stats["by_rule"].get(n, 0)
+        if n in bad_rules:
+            continue
+        if k:
+            out.ok({"rule": n, "evaluations": k, "verdict": "identity on every pattern and grid point examined"})
+        elif n in CTX_NEVER_FIRED:
+            out.unproven.append({"site": n, "reason": CTX_NEVER_FIRED[n]})
+        else:
+            out.bad(f"context-rule-not-exercised:{n}", f"no pattern of the family makes rule {n!r} fire: it is not examined", where(eng.rules_fn))
+
+
 RULES = [
+    ("C03.f", "context rules are identities on the pattern family", 25, rule_f),
     ("C03.a", "type-1 rule table against the complete identity set", 200, rule_a),
     ("C03.b", "constant folders stay in the word domain", 15, rule_b),
     ("C03.c", "folded/rewritten operators denote exactly one opcode", 12, rule_c),
